@@ -1,10 +1,13 @@
 """C08 — a submission reaches every configured node and succeeds iff one accepts, within the
 time-out, for every submission of a history on one long-lived submitter instance (spec/Submitter.tla,
-spec/SubmitterInst.tla, spec/SubmitterClassifier.tla, spec/SubmitterScatter.tla)."""
+spec/SubmitterInst.tla, spec/SubmitterClassifier.tla, spec/SubmitterScatter.tla) - and for the SIBLING
+FAN-OUTS that do not go through the submitter (kinds "prepdirect", "regnodes", "regrelays" of Submitter.tla;
+"prepdirect" bound on the real proposal preparer, spec/Scen_SubmitterDirect.tla)."""
 import concurrent.futures
 import json
 import os
 import random
+import threading
 import vf
 
 PID = "C08"
@@ -14,8 +17,51 @@ KINDS = ["att", "agg", "proposal", "syncmsg", "contrib", "bcsub", "scsub", "prep
 FULL_IN_QUICK = ("att", "syncmsg")
 
 
+PREP_PKG = "./services/proposalpreparer/standard"
+PREP_TEST = "TestVerifC08Prep"
+_early = {}     # rows of the wired (untimed) family, recorded while the TLC phase runs
+
+
+def prep_driver(scenarios, tag):
+    return vf.run_driver(PID, PREP_PKG, PREP_TEST, scenarios, tag + "-prep", timeout=1200)
+
+
 def driver(scenarios, tag):
-    return vf.run_driver(PID, PKG, TEST, scenarios, tag, timeout=1200)
+    """The sibling fan-out family (sub "direct") runs on the real proposal preparer, everything else on the
+    real submitters."""
+    direct = [s for s in scenarios if s.get("sub") == "direct"]
+    rest = [s for s in scenarios if s.get("sub") != "direct"]
+    rows = []
+    if direct:
+        key = tuple(s["sc"] for s in direct)
+        if tag == "batch" and _early.get("key") == key:
+            _early["thread"].join()
+            if "error" in _early:
+                raise _early["error"]
+            rows += _early["rows"]
+        else:
+            rows += prep_driver(direct, tag)
+    if rest:
+        rows += vf.run_driver(PID, PKG, TEST, rest, tag, timeout=1200)
+    return rows
+
+
+def start_early(scenarios):
+    """The wired family has no time-out and none of its instants is judged: it is recorded side by side with
+    the TLC phase (the timed driver never is)."""
+    direct = [s for s in scenarios if s.get("sub") == "direct"]
+    if not direct:
+        return
+    _early.clear()
+    _early["key"] = tuple(s["sc"] for s in direct)
+
+    def work():
+        try:
+            _early["rows"] = prep_driver(direct, "batch")
+        except BaseException as e:      # noqa: handed to the caller of driver()
+            _early["error"] = e
+    _early["thread"] = threading.Thread(target=work, daemon=True)
+    _early["thread"].start()
 
 
 def _d12_node(kind, n):
@@ -49,6 +95,8 @@ def sig_of(s):
     if s.get("calls"):
         sig["mode"] = s.get("mode")
         sig["calls"] = len(cs)
+    if s.get("sub") == "direct":
+        sig["nodes"] = len(cs[0]["nodes"])
     return sig
 
 
@@ -62,7 +110,7 @@ def nontrivial(s, rows):
     cs = calls_of(s)
     faulty = any(n.get("out") != "accept" or n.get("ver") == "fail" for c in cs for n in c["nodes"])
     called = any(r.get("ev") == "Call" for r in rows)
-    if s.get("calls"):
+    if len(cs) > 1:
         called = called and any(r.get("ev") == "Call" and r.get("call", 1) > 1 for r in rows)
     return faulty and called
 
@@ -87,6 +135,8 @@ def generate(tier):
         "hover": dict(module="Scen_SubmitterHist", cfg="Scen_SubmitterHist_overlap.cfg", exhaustive=True),
         "hkinds": dict(module="Scen_SubmitterHist", cfg="Scen_SubmitterHist_kinds.cfg", exhaustive=True),
         "hsim": dict(module="Scen_SubmitterHist", cfg="Scen_SubmitterHist_sim.cfg", num=max(60, nh // 6), depth=40),
+        "dvec": dict(module="Scen_SubmitterDirect", cfg="Scen_SubmitterDirect_vec.cfg", exhaustive=True),
+        "dsim": dict(module="Scen_SubmitterDirect", cfg="Scen_SubmitterDirect_sim.cfg", num=60 if tier == "quick" else 300, depth=16),
     }
 
     def one(name):
@@ -124,6 +174,39 @@ def hist_scenarios(tier, rnd, gen):
     return out
 
 
+def _real_failure(n):
+    return n.get("out") in ("error", "slowerr") and n.get("reason") != "notActive"
+
+
+def _rank(n):
+    return 0 if n.get("out") in ("accept", "error") else (n.get("lat") or 2) if n.get("out") in ("slowok", "slowerr") else 9
+
+
+def _fail_while_in_flight(s):
+    """the class of the seeded change: some node fails of its own before the acceptance of another node is in"""
+    ns = s["calls"][0]["nodes"]
+    return any(_real_failure(a) and b.get("out") in ("accept", "slowok") and _rank(a) < _rank(b) for a in ns for b in ns)
+
+
+def direct_scenarios(tier, rnd, gen):
+    """Histories of fan-outs on ONE real proposal preparer (TLC: Scen_SubmitterDirect)."""
+    vec = gen["dvec"]
+    if len(vec) != 584:
+        raise vf.Broken("expected 584 outcome vectors for the preparer's fan-out, got %d" % len(vec))
+    sim = gen["dsim"]
+    rnd.shuffle(sim)
+    if tier == "quick":
+        # in full: the vectors without a hanging node (a hang ends the preparer's loop for good and costs the
+        # quiet period); sampled: those with one
+        plain = [v for v in vec if not any(n["out"] == "hang" for n in v["calls"][0]["nodes"])]
+        hang = [v for v in vec if any(n["out"] == "hang" for n in v["calls"][0]["nodes"])]
+        vec = plain + rnd.sample(hang, 40)
+        sim = sim[:40]
+    else:
+        sim = sim[:600]
+    return vec + sim
+
+
 def scenarios(tier):
     rnd = random.Random(vf.seed())
     out = []
@@ -155,6 +238,8 @@ def scenarios(tier):
         sizes = list(range(1, 201))
     out += hist_scenarios(tier, rnd, gen)
     out += [{"sub": "scatter", "items": i, "maxConc": 64} for i in sizes]
+    # LAST, so that the scenario ids of the older families do not move (rnd is used after them only)
+    out += direct_scenarios(tier, rnd, gen)
     return [dict(s, sc=i + 1) for i, s in enumerate(out)]
 
 
@@ -169,6 +254,11 @@ DEVIATIONS = [
     # failures counted against the node list of ANOTHER kind: right when the lists are equally long
     # (MC_Submitter_wrongcount_samesize.cfg passes), rejected when the kind's own list is longer
     ("Submitter", "MC_Submitter_dev_wrongcount.cfg", ("SuccessIff",)),
+    # the sibling fan-outs (preparer's loop, registrations to nodes / relays): ONE derived context for the whole
+    # fan-out, cancelled by the first call that fails (errgroup.WithContext): right as long as nobody fails of its
+    # own (MC_Submitter_errgroup_nofail.cfg passes), rejected otherwise; and a loop that stops at the first failure
+    ("Submitter", "MC_Submitter_dev_errgroup.cfg", ("DeliveredToEach",)),
+    ("Submitter", "MC_Submitter_dev_seqstop.cfg", ("OfferedInFull",)),
 ]
 
 
@@ -179,13 +269,15 @@ def model_checks(v, tier):
             ("Submitter", "MC_Submitter_hist.cfg", 900), ("Submitter", "MC_Submitter_hist_cacheok.cfg", 900),
             ("SubmitterInst", "MC_SubmitterInst_percall.cfg", 900),
             ("Submitter", "MC_Submitter_kinds.cfg", 900), ("Submitter", "MC_Submitter_allfailed.cfg", 900),
-            ("Submitter", "MC_Submitter_wrongcount_samesize.cfg", 900)]
+            ("Submitter", "MC_Submitter_wrongcount_samesize.cfg", 900),
+            ("Submitter", "MC_Submitter_direct.cfg", 900), ("Submitter", "MC_Submitter_direct_parfan.cfg", 900),
+            ("Submitter", "MC_Submitter_errgroup_nofail.cfg", 900), ("Submitter", "MC_Submitter_direct_hist.cfg", 900)]
     if tier == "thorough":
         good += [("Submitter", "MC_Submitter_big.cfg", 1800), ("Submitter", "MC_Submitter_hist_big.cfg", 1800),
                  ("Submitter", "MC_Submitter_hist_cacheok_big.cfg", 1800),
                  ("SubmitterInst", "MC_SubmitterInst_percall_big.cfg", 1800),
                  ("Submitter", "MC_Submitter_kinds_big.cfg", 1800), ("Submitter", "MC_Submitter_allfailed_big.cfg", 1800),
-                 ("Submitter", "MC_Submitter_hist_kinds.cfg", 1800)]
+                 ("Submitter", "MC_Submitter_hist_kinds.cfg", 1800), ("Submitter", "MC_Submitter_direct_big.cfg", 1800)]
 
     def run_good(job):
         module, cfg, timeout = job
@@ -225,10 +317,13 @@ def run(tier):
         "immediate submitter: no time-out is configured there, its return instant and client-specific tolerance are not judged",
         "Env_ClientFixedPerAddress: within one history a node keeps its client type (the property lets the instance remember a client type a node reported at a successful lookup)",
         "Env_VersionStableWithinOverlap: while two submissions overlap, a node's version query either works for both or fails for both",
+        "Env_HonoursContext: a node client ends a call in flight when the context it was given is cancelled (as go-eth2-client's HTTP requests do); the scripted node clients of both drivers do",
+        "sibling fan-outs: the proposal preparer's own loop is bound (real service, node clients faked); the block relay's registration fan-outs (regnodes, regrelays) are model-level here and bound by C11's driver",
     ]
     join = model_checks(v, tier)     # TLC runs side by side with the scenario generation ...
     try:
         sc = scenarios(tier)
+        start_early(sc)              # the wired, untimed family is recorded meanwhile
     finally:
         join()                       # ... but never with the timed driver
     vf.conformance(v, sc, driver, "Trace_Submitter", "Trace_Submitter.cfg", sig_of, nontrivial, tlc_timeout=1200)
@@ -245,7 +340,10 @@ def run(tier):
                           "kind run (8 patterns: one kind has the whole pool of 3, the others 2 or 1 peers) x vectors in which prompt / "
                           "delayed rejections arrive before the first acceptance within the time-out (ranks of delay 30/60/90 ms chosen "
                           "by TLC: the order of the completions); immediate: every "
-                          "kind x outcome; util.Scatter: items x concurrency 0..64, one trace line each; non-trivial = at least "
+                          "kind x outcome; util.Scatter: items x concurrency 0..64, one trace line each; SIBLING FAN-OUT on the real proposal preparer "
+                          "(TLC: Scen_SubmitterDirect): every vector of accept / reject / not active / client time-out / delayed accept "
+                          "(ranks 1, 2) / delayed reject / hang over 1-3 node clients that honour their context (quick: all without a "
+                          "hang, a sample with), simulated histories of 2-3 UpdatePreparations on one instance; non-trivial = at least "
                           "one faulty node and at least one node really called (Scatter: more than one item); distinct by scenario")
     return v.finish()
 
